@@ -29,10 +29,15 @@ pub struct C03Doc {
     pub pre: Vec<FileEnt>,
     pub pre_dirs: Vec<String>,
     pub patches: Vec<Vec<Chunk>>,
+    /// history: before the patches proper, patch `.0` cut off after `.1` bytes is applied to an
+    /// unrelated scratch directory (and must fail there); the real applications that follow must
+    /// not be affected by it
+    #[serde(default)]
+    pub failed_prelude: Option<(usize, usize)>,
 }
 
 // probes: one per chunk kind (17), then the named ones
-pub const PROBES: [&str; 32] = [
+pub const PROBES: [&str; 33] = [
     "applied_FHDR2",
     "applied_FHDR3",
     "applied_APLY",
@@ -65,6 +70,7 @@ pub const PROBES: [&str; 32] = [
     "header_update_index_file",
     "short_read_of_patch_fired",
     "systematic_sequence",
+    "real_apply_after_failed_apply_elsewhere",
 ];
 
 pub const DATA: &str = "/w/data";
@@ -442,7 +448,14 @@ pub fn generate(seed: u64, tier: Tier) -> Doc {
         chunks.push(Chunk::Eof);
         patches.push(chunks);
     }
-    let body = C03Doc { via, pre, pre_dirs, patches };
+    let failed_prelude = if g.r.chance(1, 6) {
+        let pi = g.r.usize_below(patches.len());
+        let len = encode_patch(&patches[pi]).bytes.len();
+        Some((pi, g.r.range(13, len as u64 - 5) as usize))
+    } else {
+        None
+    };
+    let body = C03Doc { via, pre, pre_dirs, patches, failed_prelude };
     if let Some(w) = why_not(&body) {
         panic!("HARNESS: C03 generator produced a scenario outside the constrained space (seed {}): {}", seed, w);
     }
@@ -589,7 +602,7 @@ pub fn directed() -> Vec<Doc> {
             0xD1EC7ED0 + i as u64,
             cfg,
             benign,
-            C03Doc { via, pre: pre.clone(), pre_dirs: dirs.clone(), patches: vec![p1.clone(), p2.clone(), p3.clone()] },
+            C03Doc { via, pre: pre.clone(), pre_dirs: dirs.clone(), patches: vec![p1.clone(), p2.clone(), p3.clone()], failed_prelude: if via == Via::Direct { Some((0, 17000)) } else { None } },
         ));
     }
     // systematic: every sequence of <= 3 commands over the alphabet, after T
@@ -621,7 +634,7 @@ pub fn directed() -> Vec<Doc> {
             0xD1EC7ED0 + idx,
             cfg,
             benign,
-            C03Doc { via: Via::Direct, pre: spre.clone(), pre_dirs: sdirs.clone(), patches: vec![chunks] },
+            C03Doc { via: Via::Direct, pre: spre.clone(), pre_dirs: sdirs.clone(), patches: vec![chunks], failed_prelude: None },
         ));
         idx += 1;
     }
@@ -963,6 +976,24 @@ pub fn run(doc: &Doc, body: &C03Doc, trace: bool) -> RunResult {
     let mut h = Harness::new("C03", doc.seed, PROBES.len(), trace);
     install_pre(&h, body);
     h.set_policy(&doc.benign, &doc.io_faults);
+    if let Some((pi, cut)) = body.failed_prelude {
+        if let Some(chunks) = body.patches.get(pi) {
+            let mut bytes = encode_patch(chunks).bytes;
+            if cut < bytes.len() {
+                bytes.truncate(cut);
+                h.fs.h_mkdirs("/w/prelude/sqpack");
+                let n = bytes.len() as u64;
+                h.fs.h_write("/w/prelude.patch", bytes);
+                // what this yields is C17's business; it is history for what follows
+                let r = h.op(200, "ZiPatch::apply", n, || ZiPatch::apply("/w/prelude", "/w/prelude.patch")).done();
+                h.log(&format!("prelude -> {:?}", r.map(|x| x.is_ok())));
+                if h.failed() {
+                    return h.finish(doc.cfg, shape_hash(body));
+                }
+                h.probe(32);
+            }
+        }
+    }
     run_patches(&mut h, body, true, &[]);
     finish_probes(&mut h, body);
     if doc.seed >= 0xD1EC7ED0 + 3 && doc.seed < 0xD1EC7ED0 + 4000 {
@@ -1002,6 +1033,11 @@ pub fn finish_probes(h: &mut Harness, body: &C03Doc) {
 
 pub fn shrink(b: &C03Doc) -> Vec<C03Doc> {
     let mut out = vec![];
+    if b.failed_prelude.is_some() {
+        let mut n = b.clone();
+        n.failed_prelude = None;
+        out.push(n);
+    }
     // drop a whole patch
     if b.patches.len() > 1 {
         for i in 0..b.patches.len() {
